@@ -270,6 +270,16 @@ Definition cache_sound (vars : varenv) (g : genome) (st : state) : Prop :=
 Definition cache_ext (st st' : state) : Prop :=
   forall la, e_valid (cache st la) = true -> cache st' la = cache st la.
 
+(* operational laziness: the loci whose evaluation a run starting at [l] needs.
+   [asks l la]: la is the locus of an argument that the symbol at l asks for
+   (given the denotations of its arguments) *)
+Definition asks (vars : varenv) (g : genome) (l la : locus) : Prop :=
+  exists n t ge i, tree_of n g l = Some t /\ gene_at g l = Some ge /\
+                   In i (asked_at vars t) /\ arg_locus ge i = Some la.
+Inductive needed (vars : varenv) (g : genome) : locus -> locus -> Prop :=
+| needed_one : forall l la, asks vars g l la -> needed vars g l la
+| needed_more : forall l la lb, asks vars g l la -> needed vars g la lb -> needed vars g l lb.
+
 (* the denotation of the program rooted at locus [l] of a genome *)
 Definition den_locus (vars : varenv) (g : genome) (l : locus) : option outcome :=
   option_map (den vars) (tree_of (S (rows g)) g l).
